@@ -26,7 +26,7 @@ func replayViolation(id string, cfg *CheckConfig, v *Violation, repo string) {
 			break
 		}
 	}
-	if spec == nil {
+	if spec == nil || spec.Mode == "none" {
 		return
 	}
 	if spec.Mode == "native" {
